@@ -346,7 +346,9 @@ def check_wrapper(ctx, owner: str, rel: str, body: List[ast.stmt], scope_node: a
         if f is not None:
             targets = cg.call_targets(call, f)
         else:
-            targets = [t for (c, ts, how) in (module_edges or []) if c is call for t in ts]
+            # (statements inside a desugared with-block are copies: match the call by position and text)
+            targets = [t for (c, ts, how) in (module_edges or [])
+                       if c is call or ((c.lineno, c.col_offset) == (call.lineno, call.col_offset) and norm(c) == norm(call)) for t in ts]
         return any(summ.get(id(t.node)) for t in targets)
 
     owes_cwd_sites: List[ast.AST] = []
